@@ -1723,6 +1723,10 @@ class Exec:
                 _, reckey, off, ft = self.norm_field(BV(0, 64), t.name, f[1])
                 key = self.heap_key(reckey, off, ft.bits)
                 self.get_heap(st, key, ft.bits)
+                if len(f) > 2:          # (type, field, object): only that object's field may change
+                    nv = self.fresh('F_after_' + name, st.fh[key].sort().range())
+                    st.fh[key] = z3.Store(st.fh[key], f[2], nv)
+                    continue
             else:
                 key = f
             st.fh[key] = self.fresh('H_after_' + name, st.fh[key].sort())
